@@ -2,7 +2,7 @@
 //! callback-carrying enums of c13 (rejecting callbacks, skip callbacks, bumping callbacks,
 //! look-ahead keywords) must still go left to right and stay within the linear bound.
 #[cfg(feature = "trace")]
-use crate::c13::{Log, C, M, MB, ML};
+use crate::c13::{Log, C, M, MB, MK, ML};
 use vcore::report::Report;
 #[cfg(feature = "trace")]
 use vcore::report::Violation;
@@ -99,6 +99,7 @@ pub fn run(tier: &str, rep: &mut Report) {
     crate::c13::strings(&named_alpha, l, &mut |s| go(rep, "M", s, trace_str::<M>(s)));
     crate::c13::strings(&clos_alpha, l, &mut |s| go(rep, "C", s, trace_str::<C>(s)));
     crate::c13::strings(&["l", "e", "t", "n", "d", " ", "\n", "!", "é", "x", "X"], l + 2, &mut |s| go(rep, "ML", s, trace_str::<ML>(s)));
+    crate::c13::strings(&["/", "*", "r", "e", "m", "a", " ", "\n", "=", "é"], l + 2, &mut |s| go(rep, "MK", s, trace_str::<MK>(s)));
     crate::c13::strings(&["r", "s", "t", " ", "v", "1", "a"], l + 2, &mut |s| go(rep, "M", s, trace_str::<M>(s)));
     for s in ["12 345 6", "b1 b11 b111 e11 e1 c11 c111 h1 h11 j111 y11 z111", "uuuu a uu", "g1g11g111 i11i1 m11 n11"] {
         go(rep, "M", s, trace_str::<M>(s));
